@@ -6,7 +6,7 @@ From Coq Require Import List NArith Bool Lia ZifyBool ZifyN.
 From Conductor Require Import Lib.Regex Lib.RegexBisim Lib.PyRegex Lib.Str
   Gen.Generated Model.Ident Proofs.IdentSpec.
 Import ListNotations.
-Open Scope N_scope.
+Local Open Scope N_scope.
 
 Definition tie_ok (p : pyre) (doc : re) : bool := exact p && equiv_check (body p) doc.
 
